@@ -11,7 +11,7 @@ EXPLANATION = (
     "operators against is_applicable_to_expr_type.  (R2, R3) the post-conversion checkers reach "
     "every expression position and the built-in argument contract (rules shared with C08).  (R4) "
     "by-reference arguments are matched by type equality, by-value ones by castability.  (R5) every "
-    "conditional construct reaches the condition-type check, which accepts exactly numeric types.")
+    "conditional construct reaches the condition-type check, which accepts exactly numeric types.  (R10) no function reads the element-type field of an ArrayElement node without its index list (a whole array `A()` is not one of its elements); (R11) the by-value argument check accepts an array only for an array parameter of the very same element type, for all 30 pairs (there is no conversion for arrays); (R12) the number of arguments and the number of parameters of a user-defined subprogram are compared for equality, not order.")
 NOT_DECIDED = [
     "stability of the verdict under renaming of identifiers",
     "that one local ill-forming edit is rejected *in the edited statement* (position clause)",
@@ -449,6 +449,48 @@ def r11_no_conversion_between_arrays(ctx, T, rule="C12.R11"):
     ctx.require(rule, 30)
 
 
+def r12_argument_count_is_compared_for_equality(ctx, rule="C12.R12"):
+    """`wrong argument count ... is rejected`: where the number of arguments of a call is compared
+    with the number of parameters of the subprogram it names (two lengths known only when the checker
+    runs), ArgumentCountMismatch is decided by `!=` / `==`.  An ordering (`<`) lets calls with surplus
+    arguments through - the pairing of arguments and parameters afterwards stops at the shorter list,
+    so the surplus is neither counted nor typed."""
+    prog = ctx.prog
+    n = 0
+    for f in sorted(prog.fns.values(), key=lambda f: f.id):
+        if f.crate != "rusty_linter" or f.kind == "const":
+            continue
+        body = f.body
+        sites = [b for b, blk in enumerate(body.blocks) if not blk.get("c") for st in blk["s"]
+                 if st["k"] == "assign" and st["r"].get("k") == "agg" and (st["r"].get("adt") or "").endswith("::LintError")
+                 and st["r"].get("variant") == "ArgumentCountMismatch"]
+        if not sites:
+            continue
+        pv = mir.Prov(body)
+        for sb in sites:
+            for d in range(body.nblocks):
+                t = body.term(d)
+                if t["k"] != "switch" or t.get("ty") != "bool" or not body.dominates(d, sb) or d == sb:
+                    continue
+                o = pv.of_operand(t["o"])
+                if o[0] != "bin":
+                    continue
+                sides = [mir.strip_all(x) for x in o[2:4]]
+                is_len = [x[0] == "call" and x[1].split("::")[-1] == "len" and
+                          mir.origin_mentions(x, lambda z: z[0] == "param") for x in sides]
+                if not all(is_len):
+                    continue
+                n += 1
+                name = f.path.split("::", 1)[1]
+                ctx.decide(o[1] in ("Ne", "Eq"), rule, "%s:%s" % (rule, name), f.loc,
+                           "the two lengths are compared with %s" % o[1],
+                           "%s decides ArgumentCountMismatch with `%s` on the number of arguments and the number of "
+                           "parameters: a call with more arguments than the subprogram has parameters is accepted and "
+                           "its surplus arguments are never checked" % (name, o[1]))
+    ctx.analysed_units(rule, count_comparisons=n)
+    ctx.require(rule, 1)
+
+
 def run(ctx):
     common.install(ctx)
     T = ot.OpTables(ctx.prog)
@@ -464,3 +506,4 @@ def run(ctx):
     r9_subscripts_are_numeric(ctx)
     r10_array_element_type_field(ctx)
     r11_no_conversion_between_arrays(ctx, T)
+    r12_argument_count_is_compared_for_equality(ctx)
